@@ -243,3 +243,38 @@ func VerifC17Substituted() {
 	_ = out
 	vCover("done")
 }
+
+// VerifC17Batch: the leader seals every message of a batch before it appends
+// them, so several sealed values of one handler are alive at the same time.
+// Two or three values of arbitrary lengths (0..n) and bytes are sealed one after
+// the other; only then each sealed form is read: every one returns exactly its
+// own value, and a later Seal has not changed the bytes of an earlier result.
+func VerifC17Batch() {
+	h := vHandler()
+	k := 2 + vChoose(2)
+	var vals, sealed, copies [][]byte
+	for i := 0; i < k; i++ {
+		n := vNondetInt("len")
+		vAssume(n >= 0)
+		vAssume(n <= vParam("maxlen", 3))
+		n = vConcretize(n)
+		v := vNondetBytes("value", n)
+		s, err := h.Seal(v)
+		vAssert(err == nil, "Seal succeeds")
+		if err != nil {
+			return
+		}
+		vals = append(vals, v)
+		sealed = append(sealed, s)
+		copies = append(copies, append([]byte{}, s...))
+	}
+	for i := 0; i < k; i++ {
+		vAssert(vEq(sealed[i], copies[i]), "a sealed value is not changed by later Seal calls")
+		out, err := h.Read(sealed[i])
+		vAssert(err == nil, "Read of a sealed value succeeds")
+		if err == nil {
+			vAssert(vEq(out, vals[i]), "every message of a batch reads back as its own value")
+		}
+	}
+	vCover("done")
+}
